@@ -485,3 +485,67 @@ def ctl_untracked_property(ctx):
     base = {f.key for f in S.rule_S3(ctx).findings}
     new = [f for f in S.rule_S3(ctx.derive(p2)).findings if f.key not in base]
     return ("untracked_property", bool(new), "TaskSpec.input untracked: %d new finding(s)" % len(new))
+
+
+# ---------------------------------------------------------------------- purity / order
+def ctl_persist_internal_ctx(ctx):
+    import ast
+    from sa import purity as PU
+
+    def pred(n):
+        return (isinstance(n, ast.Call) and isinstance(n.func, ast.Attribute) and n.func.attr == "append"
+                and "contexts" in ast.unparse(n.func.value) and n.args
+                and isinstance(n.args[0], ast.Name) and n.args[0].id == "new_ctx")
+
+    def repl(n):
+        n.args = [ast.Name(id="current_ctx", ctx=ast.Load())]
+        return n
+
+    return _edit_control(ctx, "persist_internal_ctx", COND, "WorkflowConductor.update_task_state",
+                         pred, repl, [PU.rule_O5], what="task context with __ internals persisted")
+
+
+def ctl_ctx_unfiltered(ctx):
+    import ast
+    from sa import purity as PU
+
+    def pred(n):
+        return isinstance(n, ast.DictComp)
+
+    def repl(n):
+        for g in n.generators:
+            g.ifs = []
+        return n
+
+    return _edit_control(ctx, "ctx_unfiltered", "orquesta/expressions/functions/common.py", "ctx_",
+                         pred, repl, [PU.rule_O6], what="ctx() returns internals")
+
+
+def ctl_yaql_raw_context(ctx):
+    from sa import purity as PU
+    pred, repl = M.unwrap_call("convert_input_data")
+    return _edit_control(ctx, "yaql_raw_context", "orquesta/expressions/yql.py",
+                         "YAQLEvaluator.contextualize", pred, repl, [PU.rule_O4],
+                         what="YAQL gets the caller's dict itself")
+
+
+def ctl_partial_sort_of_set(ctx):
+    import ast
+    from sa import order as OR
+
+    def pred(n):
+        return isinstance(n, ast.Lambda) and isinstance(n.body, ast.Tuple)
+
+    def repl(n):
+        n.body = n.body.elts[0]
+        return n
+
+    return _edit_control(ctx, "partial_sort_of_set", "orquesta/expressions/base.py", "extract_vars",
+                         pred, repl, [OR.rule_N1], what="set of tuples sorted by one component")
+
+
+def ctl_unsorted_start_tasks(ctx):
+    from sa import order as OR
+    pred, repl = M.unwrap_call("sorted")
+    return _edit_control(ctx, "unsorted_start_tasks", MODELS, "TaskMappingSpec.get_start_tasks",
+                         pred, repl, [OR.rule_N2], what="start tasks in declaration order")
